@@ -488,20 +488,26 @@ type quietTB struct {
 
 type tbFailNow struct{}
 
-func (q *quietTB) Helper()                           {}
-func (q *quietTB) Name() string                      { return q.name }
-func (q *quietTB) Logf(format string, args ...any)   { q.logs = append(q.logs, fmt.Sprintf(format, args...)) }
+func (q *quietTB) Helper()      {}
+func (q *quietTB) Name() string { return q.name }
+func (q *quietTB) Logf(format string, args ...any) {
+	q.logs = append(q.logs, fmt.Sprintf(format, args...))
+}
 func (q *quietTB) Log(args ...any)                   { q.logs = append(q.logs, fmt.Sprint(args...)) }
 func (q *quietTB) Skipf(format string, args ...any)  {}
 func (q *quietTB) Skip(args ...any)                  {}
 func (q *quietTB) SkipNow()                          {}
 func (q *quietTB) Errorf(format string, args ...any) { q.failed = true; q.Logf(format, args...) }
 func (q *quietTB) Error(args ...any)                 { q.failed = true; q.Log(args...) }
-func (q *quietTB) Fatalf(format string, args ...any) { q.failed = true; q.Logf(format, args...); panic(tbFailNow{}) }
-func (q *quietTB) Fatal(args ...any)                 { q.failed = true; q.Log(args...); panic(tbFailNow{}) }
-func (q *quietTB) FailNow()                          { q.failed = true; panic(tbFailNow{}) }
-func (q *quietTB) Fail()                             { q.failed = true }
-func (q *quietTB) Failed() bool                      { return q.failed }
+func (q *quietTB) Fatalf(format string, args ...any) {
+	q.failed = true
+	q.Logf(format, args...)
+	panic(tbFailNow{})
+}
+func (q *quietTB) Fatal(args ...any) { q.failed = true; q.Log(args...); panic(tbFailNow{}) }
+func (q *quietTB) FailNow()          { q.failed = true; panic(tbFailNow{}) }
+func (q *quietTB) Fail()             { q.failed = true }
+func (q *quietTB) Failed() bool      { return q.failed }
 
 func subSeed(seed uint64, prop, name string, shard int) uint64 {
 	h := fnv.New64a()
